@@ -27,7 +27,7 @@ def short_cfg(cfg):
         return d
     return {'levels': [{'mws': [mw(m) for m in l['mws']], 'resources': l['resources']} for l in cfg['levels']],
             'prefix_bindings': [l.get('prefix_bindings') or [] for l in cfg['levels'][:-1]],
-            'build_via_add': bool(cfg.get('build_via_add')), 'siblings': [[m['mid'] for m in sb['mws']] + (['embedded'] if sb.get('embedded') else []) for sb in (cfg['route'].get('siblings') or [])], 'decoys': cfg['route'].get('decoys') or [], 'resp_flavour': cfg.get('resp_flavour') or {},
+            'build_via_add': bool(cfg.get('build_via_add')), 'render_via_factory': bool(cfg['route'].get('render_via_factory')), 'siblings': [[m['mid'] for m in sb['mws']] + (['embedded'] if sb.get('embedded') else []) for sb in (cfg['route'].get('siblings') or [])], 'decoys': cfg['route'].get('decoys') or [], 'resp_flavour': cfg.get('resp_flavour') or {}, 'exc_flavour': cfg.get('exc_flavour') or {},
             'route': {'bindings': cfg['route']['bindings'], 'resources': cfg['route']['resources'],
                       'mws': [mw(m) for m in cfg['route']['mws']], 'endpoint': f(cfg['route']['endpoint']),
                       'render': f(cfg['route'].get('render')), 'methods': cfg['route'].get('methods')},
@@ -94,6 +94,9 @@ def outcome_of(ex, tr, rt):
     body = ex.body.decode('utf8', 'replace')
     if 'resp:' in body and not body.startswith('resp:'):      # a returned HTTP error rendered by the error handler
         body = body[body.index('resp:'):].split()[0]
+    if 'exc:' in body:                                        # a raised HTTP error rendered by the error handler
+        parts = body[body.index('exc:'):].split()[0].split(':')
+        return ['exc', parts[1]] if (len(parts) >= 3 and parts[2] == str(ex.token)) else ['exc', parts[1], 'token-of-another-request']
     if body.startswith('resp:'):
         parts = body.split(':')
         return ['resp', parts[1]] if (len(parts) >= 3 and parts[2] == str(ex.token)) else ['resp', parts[1], 'token-of-another-request']
@@ -198,6 +201,20 @@ def evaluate(cfg, requests=('hit', 'hit2', '404', '405'), want=('C01', 'C02', 'C
             d = diff_traces(strip(exp_trace), strip(act))
         else:
             d = diff_traces(exp_trace, act)
+        if d is not None and d[0] == 'shape' and not shape_only:
+            # the order of calls differs (C03's subject); every function that did run must still have received
+            # exactly the values of its sources (C02's subject), so compare call by call
+            exp_calls = dict((e[1], e[2]) for e in reversed(exp_trace) if e[0] == 'enter')
+            for e in act:
+                if e[0] == 'enter' and e[1] in exp_calls and e[2] != exp_calls[e[1]]:
+                    bad = [(p, exp_calls[e[1]].get(p), e[2].get(p)) for p in sorted(set(e[2]) | set(exp_calls[e[1]]))
+                           if e[2].get(p) != exp_calls[e[1]].get(p)]
+                    p, ev, av = bad[0]
+                    findings.append(Finding('C02', 'C02/%s-instead-of-%s:%s' % ((av or ['absent'])[0], (ev or ['absent'])[0],
+                                                                                  kinds.get((e[1], p), '?')),
+                                            '%s %s: %s received %s=%r (expected %r) [call order also differs]'
+                                            % (method, path, e[1], p, av, ev)))
+                    break
         if d is not None:
             cat, text, diffs, fid = d
             if cat == 'args':
